@@ -159,7 +159,7 @@ def _d1_d2(chk, fb):
         # no cache is read before it has been reloaded (a derived member computed from the previous parameter value)
         stale = []
         for fld, nodes in assigned.items():
-            refresh = [a for a in nodes if any(is_call(x) and x["callee"]["name"] in ("getParameterValue", "getParameter_", "getParameter") for x in walk(a))]
+            refresh = [a for a in nodes if any(is_call(x) and x["callee"]["name"] in ("getParameterValue", "getParameter_", "getParameter") for x in _xwalk(f, a))]
             if not refresh:
                 continue
             for r in f.all_nodes():
@@ -174,11 +174,11 @@ def _d1_d2(chk, fb):
             fld, r, a = stale[0]
             chk.refuted("D2", f.key, "read-before-reload:" + fld, f.loc(r), "'%s' is read at line %s before it is reloaded from its parameter at line %s: whatever is computed there uses the previous parameter value" % (fld, r.get("l"), a.get("l")),
                         witness={"history": "construct; change the parameter behind '%s'; query the classes" % fld})
-        elif any(any(is_call(x) and x["callee"]["name"] == "getParameterValue" for x in walk(a)) for nodes in assigned.values() for a in nodes):
+        elif any(any(is_call(x) and x["callee"]["name"] == "getParameterValue" for x in _xwalk(f, a)) for nodes in assigned.values() for a in nodes):
             chk.proved("D2", f.key, "reload-before-use", f.loc(), "no parameter cache is read before its reload")
         # ---- D2 caches
         for fld, (pname, ctor) in sorted(caches.items()):
-            hits = [a for a in assigned.get(fld, []) if any(is_call(x) and x["callee"]["name"] == "getParameterValue" and any(s["k"] == "StringLiteral" and s["val"] == pname for s in walk(x)) for x in walk(a))]
+            hits = [a for a in assigned.get(fld, []) if any(is_call(x) and x["callee"]["name"] == "getParameterValue" and any(s["k"] == "StringLiteral" and s["val"] == pname for s in walk(x)) for x in _xwalk(f, a))]
             if hits:
                 chk.proved("D2", f.key, "cache-refreshed:" + fld, f.loc(hits[0]), "%s = getParameterValue(\"%s\")" % (fld, pname))
             else:
@@ -221,7 +221,7 @@ def _d1_d2(chk, fb):
                     rblocks = {cfg.stmt_block(m) for m in redo if cfg.stmt_block(m) is not None}
                     for u in used:
                         for a in assigned.get(u, []):
-                            if not any(is_call(x) and x["callee"]["name"] == "getParameterValue" for x in walk(a)):
+                            if not any(is_call(x) and x["callee"]["name"] == "getParameterValue" for x in _xwalk(f, a)):
                                 continue
                             ab = cfg.stmt_block(a)
                             if ab is None or ab in rblocks:
@@ -515,6 +515,17 @@ def _d8(chk, fb, files):
     chk.floor("D8", "classes with user copy constructor and operator=", n, 6)
 
 
+def _xwalk(f, a, depth=0):
+    """nodes of a, and of the initialisers of the single-assignment locals it names (alpha_ = newAlpha with
+    const double newAlpha = getParameterValue("alpha"))"""
+    inits = local_inits(f)
+    for x in walk(a):
+        yield x
+        if x["k"] == "DeclRefExpr" and x["decl"]["id"] in inits and depth < 3:
+            for y in _xwalk(f, inits[x["decl"]["id"]], depth + 1):
+                yield y
+
+
 def _d9(chk, fb, files):
     """running end-point pairs: a loop that carries a point x and the value v of a function G at that point from one interval to
     the next (v2 = G(x2) computed in the body, then 'v = v2' and 'x = x2' moved together) uses differences v2 - v that telescope
@@ -529,6 +540,11 @@ def _d9(chk, fb, files):
             stmts = [x for x in walk(lp)]
             moves, evals = {}, {}
             for x in stmts:
+                if x["k"] == "DeclStmt":
+                    for d in x["decls"]:
+                        r_ = strip(d["init"]) if d.get("init") is not None else None
+                        if r_ is not None and (d.get("ty") or "").replace("const ", "") == "double" and is_call(r_) and len(f.args(r_)) == 1 and strip(f.args(r_)[0])["k"] == "DeclRefExpr":
+                            evals[d["id"]] = (r_, strip(f.args(r_)[0])["decl"]["id"])
                 if x["k"] == "BinaryOperator" and x.get("op") == "=":
                     l_, r_ = strip(kids(x)[0]), strip(kids(x)[1])
                     if l_["k"] == "DeclRefExpr" and (l_.get("ty") or "").replace("const ", "") == "double":
